@@ -78,6 +78,7 @@ func hcGenExchange(rng *sim.Rand, prop string, sc *hcScenario) hcExchange {
 		ex.RChunked = rng.Bool(0.3)
 		ex.RGzip = rng.Bool(0.25)
 		ex.RInc = rng.Bool(0.3)
+		ex.RLastCoalesced = rng.Bool(0.5)
 		if ex.RGzip && ex.RBodyLen >= 100 && rng.Bool(0.08) {
 			ex.RGzipBad = rng.Pick(1, 2)
 		}
@@ -150,6 +151,9 @@ func hcGenC03(rng *sim.Rand, tier string) interface{} {
 	if rng.Bool(0.2) {
 		sc.Mirror = rng.PickStr("ok", "ok", "slow", "reset", "big", "down")
 	}
+	if rng.Bool(0.3) {
+		sc.PoolTimeout = rng.PickStr("1h", "2h", "90m") // never fires here: the scripted backend answers at once and scheduler stalls add up to 20 min at most
+	}
 	hcGenNet(rng, sc)
 	nc := rng.Range(1, 3)
 	for c := 0; c < nc; c++ {
@@ -206,6 +210,9 @@ func hcGenC07(rng *sim.Rand, tier string) interface{} {
 		}
 		if rng.Bool(0.15) {
 			sc.Mirror = rng.PickStr("ok", "ok", "slow", "reset")
+		}
+		if rng.Bool(0.2) {
+			sc.PoolTimeout = rng.PickStr("1h", "2h")
 		}
 	}
 	reqLimOf := func(l hcLimits, path string, small bool) int64 {
@@ -270,8 +277,13 @@ func hcGenC07(rng *sim.Rand, tier string) interface{} {
 				ex.NewConn = rng.Bool(0.2)
 				ex.AcceptEnc = rng.PickStr("", "identity")
 				if sc.Compress >= 0 {
-					ex.AcceptEnc = rng.PickStr("gzip", "gzip", "gzip, deflate", "")
+					// "identity"/"br": the client declines gzip although compression is configured
+					ex.AcceptEnc = rng.PickStr("gzip", "gzip", "gzip, deflate", "", "identity", "br")
+					if rng.Bool(0.15) {
+						ex.RGzip = true // already compressed by the backend: the proxy must leave it alone
+					}
 				}
+				ex.RLastCoalesced = rng.Bool(0.5)
 				if sc.Retry > 1 && rng.Bool(0.5) {
 					ex.FailFirst = 1
 				}
@@ -474,8 +486,8 @@ func hcShort(b []byte) string {
 
 func (c *hcChain) describe(ex *hcExchange) string {
 	sc := c.sc
-	return fmt.Sprintf("[cfg retry=%d failFirst=%d server=%s memCache=%v byHost=%v keepHost=%v compress=%d respAdaptor=%q reqAdaptor=%q generation=%d cacheSize=%d splitPaths=%v hdrPath=%v mirror=%q discovered=%v srvMax=%d pathMax=%d poolMax=%d proxyMax=%d] [req %s %s?%s body=%d chunked=%v ae=%q conn=%v hdr=%v] [backend status=%d body=%d chunked=%v gzip=%v short=%d reset=%v hdr=%v]",
-		sc.Retry, ex.FailFirst, c.backAddr, sc.MemCache, sc.ByHost, sc.KeepHost, sc.Compress, sc.RespAdaptor, sc.ReqAdaptor, c.gen, sc.CacheSize, sc.SplitPaths, sc.HdrPath, sc.Mirror, sc.Discovered, c.lim.srv, c.lim.path, c.lim.pool, c.lim.proxy,
+	return fmt.Sprintf("[cfg retry=%d failFirst=%d server=%s memCache=%v byHost=%v keepHost=%v compress=%d respAdaptor=%q reqAdaptor=%q generation=%d cacheSize=%d splitPaths=%v hdrPath=%v mirror=%q discovered=%v poolTimeout=%q srvMax=%d pathMax=%d poolMax=%d proxyMax=%d] [req %s %s?%s body=%d chunked=%v ae=%q conn=%v hdr=%v] [backend status=%d body=%d chunked=%v gzip=%v short=%d reset=%v hdr=%v]",
+		sc.Retry, ex.FailFirst, c.backAddr, sc.MemCache, sc.ByHost, sc.KeepHost, sc.Compress, sc.RespAdaptor, sc.ReqAdaptor, c.gen, sc.CacheSize, sc.SplitPaths, sc.HdrPath, sc.Mirror, sc.Discovered, sc.PoolTimeout, c.lim.srv, c.lim.path, c.lim.pool, c.lim.proxy,
 		ex.Method, ex.Path, ex.Query, ex.BodyLen, ex.Chunked, ex.AcceptEnc, ex.ConnTokens, ex.Hdr,
 		ex.Status, ex.RBodyLen, ex.RChunked, ex.RGzip, ex.RShort, ex.RReset, ex.RHdr)
 }
@@ -970,6 +982,27 @@ func (c *hcChain) checkC07(id string, ex *hcExchange, res *hcResp) {
 	}
 	// ---- response direction
 	want := hcBody("r"+id, ex.RBodyLen, ex.RInc)
+	// A body the backend itself gzip-compressed has two sizes: on the wire and
+	// decoded (the HTTP client library between proxy and backend may undo the
+	// encoding). The statement does not say which one the limit measures: both
+	// readings are accepted where they disagree.
+	rsize := ex.RBodyLen
+	if ex.RGzip {
+		wsize := len(hcGzip(want))
+		small, large := wsize, ex.RBodyLen
+		if small > large {
+			small, large = large, small
+		}
+		if respLim >= 0 && int64(small) <= respLim && int64(large) > respLim {
+			r.Probe("c07.backend_gzip_body_over_limit_by_one_reading_only")
+			if res.status/100 == 5 {
+				return // withheld: the "larger" reading
+			}
+			rsize = small // delivered: must then be delivered intact (checked below)
+		} else {
+			rsize = large
+		}
+	}
 	if ex.RShort > 0 {
 		r.Probe("c07.backend_short_body")
 		if respLim >= 0 && res.status/100 == 2 {
@@ -985,27 +1018,27 @@ func (c *hcChain) checkC07(id string, ex *hcExchange, res *hcResp) {
 		}
 		return
 	}
-	if respLim >= 0 && int64(ex.RBodyLen) > respLim {
+	if respLim >= 0 && int64(rsize) > respLim {
 		r.Probe("c07.response_over_limit")
 		if res.status/100 != 5 {
-			r.Violate("C07.resp.over-limit-delivered", "%s: backend body %d > limit %d but client got status %d with %d bytes\n%s", id, ex.RBodyLen, respLim, res.status, len(res.body), desc)
+			r.Violate("C07.resp.over-limit-delivered", "%s: backend body %d > limit %d but client got status %d with %d bytes\n%s", id, rsize, respLim, res.status, len(res.body), desc)
 		} else if len(res.body) > 0 && bytes.Contains(want, res.body[:minInt(len(res.body), 16)]) && len(res.body) >= 16 {
 			r.Violate("C07.resp.over-limit-leaked", "%s: 5xx response carries bytes of the withheld body: %s\n%s", id, hcShort(res.body), desc)
 		}
 		return
 	}
-	if int64(ex.RBodyLen) == respLim {
+	if int64(rsize) == respLim {
 		r.Probe("c07.response_exactly_at_limit")
 	}
 	if respLim < 0 {
 		r.Probe("c07.response_streamed")
 	}
 	if res.ioErr != nil || !res.complete {
-		r.Violate("C07.resp.within-limit-aborted", "%s: backend body %d within limit %d but the client's response is incomplete: status %d, %d bytes, err %v\n%s", id, ex.RBodyLen, respLim, res.status, len(res.body), res.ioErr, desc)
+		r.Violate("C07.resp.within-limit-aborted", "%s: backend body %d within limit %d but the client's response is incomplete: status %d, %d bytes, err %v\n%s", id, rsize, respLim, res.status, len(res.body), res.ioErr, desc)
 		return
 	}
 	if res.status != ex.Status {
-		r.Violate("C07.resp.within-limit-status", "%s: backend body %d within limit %d but client got %d instead of %d\n%s", id, ex.RBodyLen, respLim, res.status, ex.Status, desc)
+		r.Violate("C07.resp.within-limit-status", "%s: backend body %d within limit %d but client got %d instead of %d\n%s", id, rsize, respLim, res.status, ex.Status, desc)
 		return
 	}
 	got, derr := hcDecode(res.body, res.hdr)
